@@ -224,12 +224,18 @@ def conflict_check(tsc, cap, shape, what):
     return None
 
 
+_threads_seen = []
+
+
 def _run_parallel(tsc, pos, shape, box, d, offset, weights, nthread, capture):
     """tsc_parallel on a float64 grid; returns (grid or None if rejected, captured args)"""
     caps = []
     orig = tsc._tsc_parallel
 
     def seam(ppart, starts, dens, box_, weights=None, offset=0.0):
+        import numba
+
+        _threads_seen.append(int(numba.get_num_threads()))  # the thread count the parallel kernel will actually run with
         caps.append((np.array(ppart, copy=True), np.array(starts, copy=True), box_, None if weights is None else np.array(weights, copy=True), offset))
         return orig(ppart, starts, dens, box_, weights, offset)
 
@@ -271,9 +277,11 @@ def run_case(d):
         pmax = (float(np.max(pos[:, ax])) + offset) * shape[ax] / box
         if pmax >= 2 * shape[ax] - 1.6 or (shape[ax] == 2 and pmax >= 2.4):
             raise Reject('offset beyond the single-wrap range of the kernel on an axis')
+    del _threads_seen[:]
     grid, caps = _run_parallel(tsc, pos, shape, box, d, offset, weights, d['nthread'], True)
     if grid is None:
         return {'classes': ['rejected-config'], 'nontrivial': False}
+    effective = max(_threads_seen) if _threads_seen else d['nthread']
     if len(caps) != 1:
         raise Violation('seam-not-called-once', 'tsc_parallel called _tsc_parallel %d times' % len(caps))
     ppart, starts = caps[0][0], caps[0][1]
@@ -285,8 +293,10 @@ def run_case(d):
     wrapped = w64.astype(pos.dtype)
     if sorted(map(tuple, ppart.tolist())) != sorted(map(tuple, wrapped.tolist())) or int(starts[-1]) != len(pos) or int(starts[0]) != 0:
         raise Violation('stripes-not-a-permutation', 'particles handed to the parallel kernel are not the input particles')
-    if d['nthread'] > 1:
-        why = conflict_check(tsc, caps[0], shape, 'n1d=%d nthread=%d npartition=%r (stripes used: %d) coord=%d offset=%r box=%r dtype=%s' % (d['n1d'], d['nthread'], d['npartition'], nst, d['coord'], offset, box, d['dtype']))
+    if d['nthread'] > 1 or effective > 1:
+        # (also when one thread was requested but the parallel kernel is entered with more: the single-thread waiver of the
+        # stripe-width / evenness rules only holds if the kernel really runs on one thread)
+        why = conflict_check(tsc, caps[0], shape, 'n1d=%d nthread=%d (kernel entered with %d threads) npartition=%r (stripes used: %d) coord=%d offset=%r box=%r dtype=%s' % (d['n1d'], d['nthread'], effective, d['npartition'], nst, d['coord'], offset, box, d['dtype']))
         if why:
             raise Violation('tsc-concurrent-stripes', why)
     # O2: differential against the single-threaded deposit
